@@ -455,7 +455,10 @@ class FuncMixin:
             items = []
             for nme, it in zip(rt.names, rt.items):
                 if nme not in given:
-                    raise EngineError(f"record {cname}: missing field {nme}")
+                    if nme not in ci.defaults:
+                        raise EngineError(f"record {cname}: missing field {nme}")
+                    (st, dv), = self._single(ci.defaults[nme], st)      # dataclass default (a literal)
+                    given[nme] = dv
                 items.append(coerce(self.as_value(given[nme]), it))
             yield st, V(rt, [z for i in items for z in i.zs])
             return
